@@ -7,7 +7,9 @@
 //! Oracle: Bernstein form and its derivative in f64 on the exact f32 inputs.
 
 use crate::{catch, f32s, f32v, next_down, next_up, Cfg, Hasher, Json, Report, Rng};
-use re::math::color::{rgba, Color4f};
+use re::geom::Ray;
+use re::math::angle::{rads, Angle};
+use re::math::color::{rgb, rgba, Color3f, Color4f};
 use re::math::point::{pt2, pt3, Point2, Point3};
 use re::math::space::{Affine, Linear};
 use re::math::spline::{BezierSpline, CubicBezier};
@@ -46,6 +48,8 @@ sp!(Vec3, 3, "Vec3", |c| vec3(c[0], c[1], c[2]), |s| [s.0[0], s.0[1], s.0[2], 0.
 sp!(Point2, 2, "Point2", |c| pt2(c[0], c[1]), |s| [s.0[0], s.0[1], 0., 0.], |d| [d.0[0], d.0[1], 0., 0.]);
 sp!(Point3, 3, "Point3", |c| pt3(c[0], c[1], c[2]), |s| [s.0[0], s.0[1], s.0[2], 0.], |d| [d.0[0], d.0[1], d.0[2], 0.]);
 sp!(Color4f, 4, "Color4f", |c| rgba(c[0], c[1], c[2], c[3]), |s| s.0, |d| d.0);
+sp!(Color3f, 3, "Color3f", |c| rgb(c[0], c[1], c[2]), |s| [s.0[0], s.0[1], s.0[2], 0.], |d| [d.0[0], d.0[1], d.0[2], 0.]);
+sp!(Angle, 1, "Angle", |c| rads(c[0]), |s| [s.to_rads(), 0., 0., 0.], |d| [d.to_rads(), 0., 0., 0.]);
 
 fn bernstein(p: &[[f64; 4]; 4], t: f64) -> [f64; 4] {
     let u = 1.0 - t;
@@ -60,7 +64,7 @@ fn bernstein_d(p: &[[f64; 4]; 4], t: f64) -> [f64; 4] {
 
 fn gen_ctrl(rng: &mut Rng, n: usize, npts: usize) -> (Vec<[f32; 4]>, f64) {
     let mag = rng.pick(&[1e-3f32, 1.0, 1.0, 100.0, 1e4]);
-    let style = rng.below(6);
+    let style = rng.below(8);
     let mut pts: Vec<[f32; 4]> = vec![];
     let base: [f32; 4] = std::array::from_fn(|_| rng.f32_in(-1.0, 1.0) * mag);
     let dir: [f32; 4] = std::array::from_fn(|_| rng.f32_in(-1.0, 1.0) * mag);
@@ -72,6 +76,8 @@ fn gen_ctrl(rng: &mut Rng, n: usize, npts: usize) -> (Vec<[f32; 4]>, f64) {
                 1 => base[c] + dir[c] * (i as f32 / npts as f32),     // collinear
                 2 if i % 2 == 0 => base[c],                           // repeated points
                 3 => (rng.int(-8, 8) as f32) * mag,                   // lattice
+                6 => base[c] * 1e3 + rng.f32_in(-1.0, 1.0) * mag,     // far from the origin, small extent
+                7 => rng.sign() * rng.log_f32(1e-6, 1e6),             // every point its own magnitude
                 _ => rng.f32_in(-1.0, 1.0) * mag,
             };
         }
@@ -82,7 +88,17 @@ fn gen_ctrl(rng: &mut Rng, n: usize, npts: usize) -> (Vec<[f32; 4]>, f64) {
 }
 
 fn t_palette(rng: &mut Rng, segs: u32) -> f32 {
-    match rng.below(12) {
+    match rng.below(16) {
+        12 => -rng.pick(&[1e-45f32, 1e-30, 1e-8, 1e-7, -0.0]),
+        13 => {
+            let mut t = 1.0f32;
+            for _ in 0..rng.pick(&[1u32, 2, 4]) {
+                t = next_up(t);
+            }
+            t
+        }
+        14 => rng.sign() * rng.pick(&[3e38f32, 1e10, f32::INFINITY, 4.3e9]),
+        15 => rng.pick(&[1e-6f32, 1.0 - 1e-6, 1e-30, 1e-45]),
         0 => -rng.f32_in(0.0, 3.0),
         1 => 0.0,
         2 => 1.0,
@@ -215,7 +231,33 @@ fn spline_case<T: Sp>(rng: &mut Rng, rep: &mut Report, idx: u64) {
                 // tangent w.r.t. the segment-local parameter, as the code documents
                 let et = (tg[c] as f64 - d[c]).abs();
                 let ttol = 12.0 * tol + 6.0 * dmax * segs as f64 * 4.0 * 1.2e-7;
-                if !(et <= ttol) && u > 1e-6 && u < 1.0 - 1e-6 {
+                // within rounding of a join the library may have picked the
+                // neighbouring segment: its derivative at the shared point is
+                // accepted as well (beyond the ends tangent() clamps, as documented)
+                let near_join = u <= 1e-6 || u >= 1.0 - 1e-6;
+                let alt_ok = near_join && {
+                    let other = if u <= 1e-6 && i > 0 {
+                        Some(bernstein_d(&seg64(i - 1), 1.0))
+                    } else if u >= 1.0 - 1e-6 && i + 1 < segs as usize {
+                        Some(bernstein_d(&seg64(i + 1), 0.0))
+                    } else {
+                        None
+                    };
+                    other.is_some_and(|o| (tg[c] as f64 - o[c]).abs() <= ttol)
+                };
+                if near_join {
+                    rep.count("spline.tangents_judged_at_ends_and_joins");
+                } else {
+                    // informational: the error against a bound that follows the
+                    // curve's own extent rather than its distance from the origin
+                    rep.worst("spline_tangent_err/(1e-5*dmax+2e-6*maxc)(informational)", et / (1e-5 * dmax + 2e-6 * maxc + 1e-300), f64::INFINITY, String::new);
+                }
+                // interior points: a bound that follows the curve's own extent
+                // (a wrong tangent on a small curve far from the origin would
+                // pass a bound relative to the largest coordinate); the second
+                // derivative enters through the rounding of u (≤ 4 ulp of t·segs)
+                let ttol = if near_join { ttol } else { ttol.min(1e-5 * dmax + 2e-6 * maxc + 6.0 * dmax * segs as f64 * 4.0 * 1.2e-7) };
+                if !(et <= ttol) && !alt_ok {
                     rep.violation("spline.spline_tangent_wrong", format!("t={t} comp {c}: tangent={} segment derivative={} (tol {ttol:.2e})", tg[c], d[c]), cj(t));
                     return;
                 }
@@ -345,9 +387,11 @@ fn spline_case<T: Sp>(rng: &mut Rng, rep: &mut Report, idx: u64) {
 }
 
 pub fn run(cfg: &Cfg, rep: &mut Report) {
-    rep.rule = "case = one control polygon (f32, Vec2, Vec3, Point2, Point3, Color4f; magnitudes 1e-3..1e4; coincident, collinear, repeated, lattice and random controls): cubic Bézier at 12 parameters from a palette (<0, 0, ±ulp, 1, >1, k/n ± ulp, random) + NaN; splines of 1..8 segments at every join k/n and its f32 neighbours plus the palette, then approximate() with halt ∈ {always, never, NaN-comparison, thresholds 1e-1..1e-8·scale} whose call log is replayed as a depth-first bisection; non-trivial = not all controls equal; distinct by hash of the controls".into();
+    rep.rule = "case = one control polygon (f32, Vec2, Vec3, Point2, Point3, Color4f, Color3f, Angle; magnitudes 1e-3..1e4, curves of small extent far from the origin, per-point magnitudes over twelve decades; coincident, collinear, repeated, lattice and random controls): cubic Bézier at 12 parameters from a palette (<0, 0, ±ulp, 1, >1, k/n ± ulp, random) + NaN; splines of 1..8 segments at every join k/n and its f32 neighbours plus the palette, then approximate() with halt ∈ {always, never, NaN-comparison, thresholds 1e-1..1e-8·scale} whose call log is replayed as a depth-first bisection; non-trivial = not all controls equal; distinct by hash of the controls".into();
     rep.assumptions.push("tolerance 1e-5·max|control| for values (2e-5 plus a segment-parameter rounding term for splines), 12× that for tangents; spline tangent is taken w.r.t. the segment-local parameter, as the code documents".into());
-    rep.run_stream(cfg, 0, "cubic_bezier", cfg.n(120_000, 12_000_000), |rng, i, rep| match i % 6 {
+    rep.run_stream(cfg, 0, "cubic_bezier", cfg.n(120_000, 12_000_000), |rng, i, rep| match i % 8 {
+        6 => bezier_case::<Color3f>(rng, rep, i),
+        7 => bezier_case::<Angle>(rng, rep, i),
         0 => bezier_case::<f32>(rng, rep, i),
         1 => bezier_case::<Vec2>(rng, rep, i),
         2 => bezier_case::<Vec3>(rng, rep, i),
@@ -355,7 +399,9 @@ pub fn run(cfg: &Cfg, rep: &mut Report) {
         4 => bezier_case::<Point3>(rng, rep, i),
         _ => bezier_case::<Color4f>(rng, rep, i),
     });
-    rep.run_stream(cfg, 1, "splines_and_approximate", cfg.n(30_000, 3_000_000), |rng, i, rep| match i % 6 {
+    rep.run_stream(cfg, 1, "splines_and_approximate", cfg.n(30_000, 3_000_000), |rng, i, rep| match i % 8 {
+        6 => spline_case::<Color3f>(rng, rep, i),
+        7 => spline_case::<Angle>(rng, rep, i),
         0 => spline_case::<f32>(rng, rep, i),
         1 => spline_case::<Vec2>(rng, rep, i),
         2 => spline_case::<Vec3>(rng, rep, i),
@@ -363,8 +409,66 @@ pub fn run(cfg: &Cfg, rep: &mut Report) {
         4 => spline_case::<Point3>(rng, rep, i),
         _ => spline_case::<Color4f>(rng, rep, i),
     });
+    // constructors: new() takes exactly 3n+1 points (n ≥ 1); from_rays builds
+    // the control polygon p0, p0+v0, p1−v1, p1, p1+v1, …, pk−vk, pk
+    rep.run_stream(cfg, 2, "constructors", cfg.n(20_000, 2_000_000), |rng, i, rep| {
+        if i < 27 {
+            let len = i as usize;
+            let pts: Vec<Vec2> = (0..len).map(|k| vec2(k as f32, -(k as f32))).collect();
+            let ok = catch(|| BezierSpline::new(&pts).eval(0.0).0);
+            let valid = len >= 4 && (len - 1) % 3 == 0;
+            rep.case(i, true);
+            rep.count("constructors.new_length_contract");
+            match (ok, valid) {
+                (Ok(_), true) | (Err(_), false) => {}
+                (Ok(_), false) => rep.violation("spline.new_accepts_bad_length", format!("BezierSpline::new accepted {len} control points (must be 3n+1, n ≥ 1)"), Json::obj().set("points", len)),
+                (Err(m), true) => rep.violation("spline.spline_panicked", format!("BezierSpline::new panicked on {len} = 3n+1 control points: {m}"), Json::obj().set("points", len)),
+            }
+            return;
+        }
+        let n = 2 + rng.usize(8);
+        let mag = rng.pick(&[1.0f32, 100.0, 1e-2]);
+        let rays: Vec<([f32; 2], [f32; 2])> = (0..n).map(|_| ([rng.f32_in(-1.0, 1.0) * mag, rng.f32_in(-1.0, 1.0) * mag], [rng.f32_in(-1.0, 1.0) * mag, rng.f32_in(-1.0, 1.0) * mag])).collect();
+        let mut hs = Hasher::new();
+        for (p, v) in &rays {
+            hs.f32s(p).f32s(v);
+        }
+        rep.case(hs.get(), true);
+        let r = catch(|| {
+            let sp = BezierSpline::from_rays(rays.iter().map(|(p, v)| Ray(pt2::<f32, ()>(p[0], p[1]), vec2::<f32, ()>(v[0], v[1]))));
+            let k = (n - 1) as f32;
+            ((0..n).map(|j| sp.eval(j as f32 / k).0).collect::<Vec<_>>(), sp.tangent(0.0).0, sp.tangent(1.0).0)
+        });
+        let cj = || Json::obj().set("rays", format!("{rays:?}"));
+        match r {
+            Err(m) => rep.violation("spline.spline_panicked", format!("from_rays/eval panicked: {m}"), cj()),
+            Ok((at_joins, t0, t1)) => {
+                let tol = 4e-5 * mag * 2.0;
+                for (j, e) in at_joins.iter().enumerate() {
+                    // j/(n−1)·(n−1) may round: the join is hit within a segment-parameter ulp
+                    let (p, v) = &rays[j];
+                    let slack = 3.0 * (v[0].abs().max(v[1].abs())) * 4.0 * 1.2e-7 * n as f32;
+                    if (e[0] - p[0]).abs() > tol + slack || (e[1] - p[1]).abs() > tol + slack {
+                        rep.violation("spline.from_rays_wrong", format!("spline from {n} rays: eval({j}/{}) = {e:?}, ray {j} starts at {p:?}", n - 1), cj());
+                        return;
+                    }
+                }
+                // the curve leaves the first origin along 3·v0 and arrives at the last along 3·v(n−1)
+                let (v0, vn) = (rays[0].1, rays[n - 1].1);
+                let ttol = 3.0 * 6e-5 * mag * 2.0;
+                if (t0[0] - 3.0 * v0[0]).abs() > ttol || (t0[1] - 3.0 * v0[1]).abs() > ttol || (t1[0] - 3.0 * vn[0]).abs() > ttol || (t1[1] - 3.0 * vn[1]).abs() > ttol {
+                    rep.violation("spline.from_rays_wrong", format!("spline from rays: tangent(0) = {t0:?} (3·v0 = {:?}), tangent(1) = {t1:?} (3·v_last = {:?})", [3.0 * v0[0], 3.0 * v0[1]], [3.0 * vn[0], 3.0 * vn[1]]), cj());
+                    return;
+                }
+                rep.count("constructors.from_rays");
+            }
+        }
+    });
+    rep.floor("constructors.from_rays", 10_000);
+    rep.floor("constructors.new_length_contract", 27);
     rep.floor("bezier.evaluations", 1_000_000);
     rep.floor("spline.evaluations", 1_000_000);
+    rep.floor("spline.tangents_judged_at_ends_and_joins", 100_000);
     rep.floor("spline.joins_checked", 50_000);
     rep.floor("approximate.calls", 20_000);
     rep.floor("approximate.reached_depth_bound", 500);
